@@ -9,11 +9,11 @@
 (* Invariants are algebraic laws that validate the oracle itself.          *)
 (***************************************************************************)
 EXTENDS FactorAlg, Json, IOUtils
-CONSTANTS MaxDepth, MaxObjs, EmitAll
+CONSTANTS MaxDepth, MaxObjs, EmitAll, NSim
 Pools == JsonDeserialize(IOEnv.INST_FILE)
 
-VARIABLES pi, store, hist
-vars == <<pi, store, hist>>
+VARIABLES pi, sid, store, hist
+vars == <<pi, sid, store, hist>>
 P == Pools[pi]
 dom == P.dom
 
@@ -35,23 +35,32 @@ Ops(st) ==
     \cup {[NoOp EXCEPT !.op = m, !.i = i, !.c = c, !.inplace = ip] :
                     m \in {"scalar_product", "scalar_sum"}, i \in I, c \in {0, 3}, ip \in BOOLEAN}
     \cup UNION {{[NoOp EXCEPT !.op = "set_value", !.i = i, !.asg = a, !.c = 7, !.inplace = TRUE] :
-                    a \in {CHOOSE x \in DOMAIN st[i].val : TRUE}} : i \in I}
+                    a \in {CHOOSE x \in DOMAIN st[i].val : TRUE}} : i \in {k \in I : st[k].scope # {}}}
 
+\* NSim = 0: exhaustive (every enabled operation is a successor).  NSim > 0: NSim sampled behaviours per pool,
+\* each step applying ONE operation drawn uniformly (TLC!RandomElement) from the enabled ones.
 Init == /\ pi \in 1..Len(Pools)
+        /\ sid \in (IF NSim = 0 THEN {0} ELSE 1..NSim)
         /\ store = [k \in 1..Len(Pools[pi].factors) |-> FromJson(Pools[pi].dom, Pools[pi].factors[k])]
         /\ hist = <<>>
 
-Do(o) ==
-    /\ Len(hist) < MaxDepth
+OK(o) ==
     /\ Enabled(dom, store, o)
     /\ (o.op = "normalize" => LET t == FTotal(store[o.i]) IN Fin(t) /\ t[1] # 0)
     /\ LET r == Apply(dom, store, o) IN
        /\ Len(r.store) <= MaxObjs
        /\ \A k \in 1..Len(r.store) : ~HasNaN(r.store[k])          \* NaN arithmetic is not specified
+       /\ \A k \in 1..Len(r.store) : \A a \in DOMAIN r.store[k].val :       \* keep within TLC's 32-bit integers
+               r.store[k].val[a][1] <= 20000 /\ r.store[k].val[a][2] <= 20000
+Do(o) ==
+    /\ LET r == Apply(dom, store, o) IN
        /\ store' = r.store
        /\ hist' = Append(hist, [o |-> o, ret |-> r.ret, store |-> ProjStore(r.store)])
-    /\ UNCHANGED pi
-Next == \E o \in Ops(store) : Do(o)
+    /\ UNCHANGED <<pi, sid>>
+Next == /\ Len(hist) < MaxDepth
+        /\ LET en == {o \in Ops(store) : OK(o)} IN
+           IF NSim = 0 THEN \E o \in en : Do(o)
+           ELSE en # {} /\ Do(RandomElement(en))
 
 \* ---- oracle laws (checked on every reachable store) ---------------------------------
 Finite(f) == ~HasInf(f) /\ ~HasNaN(f)
